@@ -126,7 +126,7 @@ let resp_view (r : cresponse) : string =
       (List.map (fun (k, v) -> (lower k, v)) r.cr_fields) in
   let fields = if fs = [] then "-" else
       String.concat "," (List.map (fun (k, v) -> hex_of_bytes k ^ "=" ^ hex_of_bytes v) fs) in
-  Printf.sprintf "%d:%s:%s:%s" status cl fields (proj r.cr_body)
+  Printf.sprintf "%d:%s:%s:%s" status cl fields (proj (List.concat r.cr_body))
 
 let run_cli (line_parts : string list) : string =
   let parts = c_split_on_string " | " (String.concat " " line_parts) in
